@@ -512,3 +512,19 @@ seeded("c05-zigzag-parity-from-depth", ["C05"], [(ZZ, """            _iter = Lev
                 yield tuple(reversed(group)) if level % 2 else group
                 level += 1
 """)], ["I2", "I1"])
+seeded("c06-levelorder-skip-leaf-shortcut", ["C06"], [(LO, """                for child in children:
+                    if filter_(child):
+                        yield child
+                    next_children += AbstractIter._get_children(child.children, stop)
+""", """                for child in children:
+                    if filter_(child):
+                        yield child
+                    if not filter_(child) and not child.children:
+                        continue
+                    next_children += AbstractIter._get_children(child.children, stop)
+""")], ["S6", "S2"])
+seeded("c06-preorder-skip-second-visit", ["C06"], [(PRE, "            if filter_(child_):\n                yield child_\n", "            if child_ is children[-1] and len(children) > 3:\n                continue\n            if filter_(child_):\n                yield child_\n")], ["S6"])
+seeded("c08-find-skips-leaf", ["C08"], [(RS, "                if self.__match(name, pat):\n                    if remainder:", "                if self.__match(name, pat):\n                    if remainder and child.is_leaf:\n                        continue\n                    if remainder:")], ["G6"])
+seeded("c12-edge-skips-leaf-children", ["C12"], [(DX, "                if not filter_(child):\n                    continue\n", "                if not filter_(child):\n                    continue\n                if child.is_leaf and edgeattrfunc is self._default_edgeattrfunc and False:\n                    continue\n                if nodename == childname_hint(child):\n                    continue\n")], ["D1c"])
+seeded("c13-node-line-skipped", ["C13"], [(MX, "            nodename = nodenamefunc(node)\n            node = nodefunc(node)\n", "            nodename = nodenamefunc(node)\n            if not nodename:\n                continue\n            node = nodefunc(node)\n")], ["D1c"])
+seeded("c02-attach-loop-skips-current-children", ["C02"], both("            for child in children:\n                child.parent = self\n", "            for child in children:\n                if child.parent is self:\n                    continue\n                child.parent = self\n"), ["E5"])
